@@ -1,7 +1,89 @@
 import PydlVerif.Model.JsonUtil
+import PydlVerif.Model.SpecOrder
 open Lean
 namespace PydlVerif.Driver.C16
+open PydlVerif PydlVerif.SpecOrder
 
-def handle (_j : Json) : Except String Json := throw "C16: no model operations yet"
+/-- image cells cross as small integers (exactly representable), wavelengths as bit patterns -/
+def imgJ (s : Img Float) : Json :=
+  Json.mkObj [("npix", J.ofNat s.npix), ("rows", J.ofList (J.ofList J.ofFloat) s.rows)]
+
+def intImg (j : Json) : Except String (Img Int) := do
+  let npix ← J.fNat j "npix"
+  let rows ← J.list (J.list J.int) (← J.fld j "rows")
+  pure ⟨npix, rows⟩
+
+def intImgJ (s : Img Int) : Json :=
+  Json.mkObj [("npix", J.ofNat s.npix), ("rows", J.ofList (J.ofList J.ofInt) s.rows)]
+
+abbrev Row := List Int
+
+def tableOf (rows : List Row) : Nat → Row := fun r => rows.getD r []
+
+structure FileJ where
+  plate : Nat
+  mjd : Nat
+  file : PlateFile Float Row
+
+def fileOfJson (j : Json) : Except String FileJ := do
+  let plate ← J.fNat j "plate"
+  let mjd ← J.fNat j "mjd"
+  let npix ← J.fNat j "npix"
+  let nfib ← J.fNat j "nfib"
+  let c0 ← J.fFloat j "c0"
+  let c1 ← J.fFloat j "c1"
+  -- img: list indexed by HDU number 0..6 (entry 5 is an empty list), each a list of rows of ints
+  let imgs ← J.list (J.list (J.list J.int)) (← J.fld j "img")
+  let plug ← J.list (J.list J.int) (← J.fld j "plug")
+  let zans ← J.fOpt (J.list (J.list J.int)) j "zans"
+  let tsobj ← J.fOpt (J.list (J.list J.int)) j "tsobj"
+  let img : Nat → Nat → List Float := fun h r => (((imgs.getD h []).getD r []).map Float.ofInt)
+  pure ⟨plate, mjd, ⟨npix, nfib, c0, c1, img, tableOf plug, zans.map tableOf, tsobj.map tableOf⟩⟩
+
+def surveyOf (fs : List FileJ) : Survey Float Row := fun p m =>
+  (fs.find? (fun f => f.plate == p && f.mjd == m)).map (·.file)
+
+def argOf {β} (f : Json → Except String β) (j : Json) : Except String (Arg β) :=
+  match j with
+  | Json.arr a => do pure (Arg.vec (← a.toList.mapM f))
+  | _ => do pure (Arg.scalar (← f j))
+
+def resultJ (r : Except String (Result Float Row)) : Json :=
+  match r with
+  | .error e => Json.mkObj [("err", Json.str e)]
+  | .ok r =>
+    let tab (t : Option (List Row)) : Json := match t with
+      | none => Json.null
+      | some rows => J.ofList (J.ofList J.ofInt) rows
+    Json.mkObj [("ok", Json.mkObj [("imgs", J.ofList imgJ r.imgs), ("plug", J.ofList (J.ofList J.ofInt) r.plug),
+      ("zans", tab r.zans), ("tsobj", tab r.tsobj)])]
+
+def handle (j : Json) : Except String Json := do
+  let op ← J.fStr j "op"
+  match op with
+  | "append" =>
+    let s1 ← intImg (← J.fld j "s1")
+    let s2 ← intImg (← J.fld j "s2")
+    let ps ← J.fInt j "pixshift"
+    pure (intImgJ (specAppend (0 : Int) s1 s2 ps))
+  | "readspec" =>
+    let fs ← J.list fileOfJson (← J.fld j "tree")
+    let S := surveyOf fs
+    let files := fs.map (fun f => (f.plate, f.mjd))
+    let reqs ← J.arr (← J.fld j "reqs")
+    let out ← reqs.toList.mapM (fun q => do
+      let platein ← argOf J.nat (← J.fld q "plate")
+      let mjd ← J.fOpt (argOf J.nat) q "mjd"
+      let fiber ← argOf J.int (← J.fld q "fiber")
+      pure (resultJ (readspec argsortImpl S files platein mjd fiber)))
+    pure (Json.arr out.toArray)
+  | "latest" =>
+    let files ← J.list (fun p => do
+      match ← J.list J.nat p with
+      | [a, b] => pure (a, b)
+      | _ => throw "pair expected") (← J.fld j "files")
+    let plates ← J.fNats j "plates"
+    pure (J.ofList J.ofNat (plates.map (latestMjd files)))
+  | _ => throw s!"C16: unknown op {op}"
 
 end PydlVerif.Driver.C16
